@@ -26,7 +26,11 @@ BUDGET = {
 FUZZ = {"thorough": dict(runs=20000, procs=8, wall_s=600)}
 TOLERANCES = {"iface": "bit-identical or explicit error", "ops": "1e-10 * scale (float64)"}
 VARIANTS = ["f_and_g", "f+g_prod", "f_and_g_prod", "all", "f_and_g+g_prod", "names:f,g", "names:f_and_g",
-            "names:f_and_g_prod", "f+g+f_and_g_prod"]
+            "names:f_and_g_prod", "f+g+f_and_g_prod", "names:shadowed", "names:drift_only", "names:missing_drift",
+            "names:missing_diffusion", "names:missing_prior+logqp", "names:prior+logqp"]
+# variants in which the user names a method the SDE does not have: the solver needs it, so the only acceptable outcome is
+# an explicit error (the canonical-name methods present on the module describe *other* functions)
+MUST_RAISE = {"names:missing_drift", "names:missing_diffusion", "names:missing_prior+logqp"}
 
 
 def _prod(noise_type, g, v):
@@ -70,6 +74,29 @@ def make_variant(base, variant):
     elif variant == "names:f,g":
         v.mu, v.sigma = f, g
         names = {"drift": "mu", "diffusion": "sigma"}
+    elif variant == "names:shadowed":
+        # canonical names exist too but describe different functions: the renamed ones must be used
+        v.f = lambda t, y: -3.0 * y                                           # noqa: E731
+        v.g = lambda t, y: 0.5 * base.g(t, y) + 0.1                           # noqa: E731
+        v.mu, v.sigma = f, g
+        names = {"drift": "mu", "diffusion": "sigma"}
+    elif variant == "names:drift_only":
+        v.f = lambda t, y: -3.0 * y                                           # noqa: E731
+        v.mu, v.g = f, g
+        names = {"drift": "mu"}
+    elif variant == "names:missing_drift":
+        v.f, v.g = (lambda t, y: -3.0 * y), g
+        names = {"drift": "no_such_method"}
+    elif variant == "names:missing_diffusion":
+        v.f, v.g = f, (lambda t, y: 0.5 * base.g(t, y) + 0.1)
+        names = {"diffusion": "no_such_method"}
+    elif variant == "names:missing_prior+logqp":
+        v.f, v.g, v.h = f, g, (lambda t, y: base.h(t, y))
+        names = {"prior_drift": "no_such_method"}
+    elif variant == "names:prior+logqp":
+        v.f, v.g, v.h = f, g, (lambda t, y: -3.0 * y)
+        v.prior = lambda t, y: base.h(t, y)                                   # noqa: E731
+        names = {"prior_drift": "prior"}
     elif variant == "names:f_and_g":
         v.mu_sigma = f_and_g
         names = {"drift_and_diffusion": "mu_sigma"}
@@ -130,24 +157,40 @@ def _run_iface(case):
     sig = {"variant": case["variant"], "method": combo["method"], "noise_type": spec["noise_type"],
            "sde_type": spec["sde_type"]}
 
+    logqp = case["variant"].endswith("+logqp")
+    if logqp and (spec["noise_type"] == "diagonal" or combo["method"] == "reversible_heun"):
+        # the logqp augmentation changes the channel count for diagonal noise / is exercised by C18; keep the Brownian shapes
+        # of this check simple
+        return Result(labels=[f"variant={case['variant']}", "skipped:logqp_shape"])
+
     def go(variant):
         sde, names = make_variant(base, variant)
+        if variant == "f,g" and logqp:
+            sde.h = lambda t, y: base.h(t, y)                                 # noqa: E731
         bm = sdes.make_bm(torchsde, spec, ts[0], ts[-1], case["entropy"], levy=combo["levy"])
         with torch.no_grad():
-            return torchsde.sdeint(sde, y0, ts, bm=bm, method=combo["method"], dt=tm["dt"],
-                                   options=dict(combo["options"]) or None, names=names)
+            out = torchsde.sdeint(sde, y0, ts, bm=bm, method=combo["method"], dt=tm["dt"],
+                                  options=dict(combo["options"]) or None, names=names, logqp=logqp)
+        return torch.cat([out[0].reshape(-1), out[1].reshape(-1)]) if logqp else out
 
     ref = go("f,g")
     labels = [f"variant={case['variant']}", solve.combo_label(combo)]
     try:
         got = go(case["variant"])
-    except (RuntimeError, ValueError) as e:
+    except (RuntimeError, ValueError, AttributeError) as e:
         msg = str(e)
-        explicit = ("has not been provided" in msg) or ("must define" in msg) or ("Cannot infer noise size" in msg)
-        if not explicit:
+        explicit = ("has not been provided" in msg) or ("must define" in msg) or ("Cannot infer noise size" in msg) \
+            or ("must all be specified" in msg)
+        if not explicit or (isinstance(e, AttributeError) and case["variant"] not in MUST_RAISE):
             raise
         labels.append("outcome=explicit_error")
         return Result(nontrivial=True, labels=labels, checks=1)
+    if case["variant"] in MUST_RAISE:
+        same = torch.equal(ref, got)
+        return Result(nontrivial=True, checks=1, fail=Fail(
+            "misnamed_method_not_rejected", f"names points at a method the SDE does not have ({case['variant']}), yet sdeint "
+            f"returned a solution ({'equal to' if same else 'different from'} the reference) instead of an explicit error "
+            f"with {solve.combo_label(combo)}", sig))
     if not torch.equal(ref, got):
         d = float((ref - got).abs().max())
         return Result(nontrivial=True, checks=1, fail=Fail(
